@@ -4,7 +4,8 @@
   Property theorems for `Ptk.Model.C13` (model of src/prompt_toolkit/history.py).
   Lemmas: `Props/C13File.lean` (format, any codec satisfying `Codec.Good`),
   `Props/C13Utf8.lean` (the concrete UTF-8 encoder / replacing decoder satisfies it),
-  `Props/C13Threaded.lean` (invariant of the ThreadedHistory transition system).
+  `Props/C13Threaded.lean` (invariant of the ThreadedHistory transition system),
+  `Props/C13Multi.lean` (several simultaneous `load()` calls).
 
   Part (a) is stated for the concrete UTF-8 codec `utf8` — no codec hypothesis is left.
   Entries are arbitrary `List Char` (every Unicode scalar value: LF, CR, U+2028, NUL, leading
@@ -14,11 +15,14 @@
   Part (b): the property as stated ("entries appended meanwhile present exactly once") is FALSE
   of the code (F5); it is refuted on three concrete schedules below, which are replayed on the
   real code by the harness, and proved for exactly the schedules in which no `append_string`
-  overlaps a `load()` (`okRun`).
+  overlaps a `load()` (`okRun`).  With several simultaneous `load()` calls the current code can
+  lose the final wake-up (F5d, `f5d_lost_wakeup`); with the proposed fix (notify loops over a
+  copy of the event list) it cannot (`multi_no_lost_wakeup`).
 -/
 import Ptk.Props.C13File
 import Ptk.Props.C13Utf8
 import Ptk.Props.C13Threaded
+import Ptk.Props.C13Multi
 namespace Ptk.C13
 open Ptk.Py
 
@@ -266,6 +270,18 @@ theorem loader_only_equiv (old pre : List Text) (sched : List Step) (hs : noAppe
   · intro hc; rw [← hv]; exact out_prefix _ h.inv hc
   · intro hc; rw [h.doneOut hc, hst']
 
+/-- BACKGROUND = INLINE for a file-backed history: `ThreadedHistory(FileHistory(path))` whose file
+    holds the records `es` — under every loader / consumer interleaving a completed `load()` has
+    yielded exactly what `list(FileHistory(path).load_history_strings())` returns. -/
+theorem threaded_file_equiv (es : List (Text × Text)) (hts : TsOk es) (sched : List Step)
+    (hs : noAppend sched) :
+    let st := run (TH.init (es.map (·.2)) []) sched
+    st.cpc = .done → st.out = loadFile utf8 (stores utf8 es) := by
+  intro st hc
+  have := (loader_only_equiv (es.map (·.2)) [] sched hs).2.2 hc
+  rw [roundtrip es hts]
+  simpa using this
+
 example : noAppend [.cstart, .cwait, .cread, .cyield, .lreset, .lsnap, .lappend, .lnotify, .cwait, .cread, .cyield,
     .lappend, .ldone, .lnotify, .ldone, .lfinal, .cwait, .cread, .cyield] := by simp [noAppend]
 
@@ -323,7 +339,56 @@ theorem f5_lost :
 theorem f5_not_okRun :
     ¬ okRun (TH.init ["o1".toList, "o2".toList] [])
       [.cstart, .lreset, .ains "NEW".toList, .astore, .lsnap] ∧
+    ¬ okRun (TH.init ["o1".toList, "o2".toList] [])
+      [.cstart, .lreset, .lsnap, .lappend, .lnotify, .cwait, .cread, .cyield, .ains "NEW".toList] ∧
     ¬ okRun (TH.init ["o1".toList] []) [.cstart, .ains "NEW".toList] := by
   simp [okRun, allowed, step, TH.init]
+
+/-! ### several simultaneous `load()` calls (no `append_string`) -/
+
+/-- SAFETY for any number of simultaneous `load()` calls, whether or not the loader's notify
+    loops copy the event list, under every interleaving at per-`event.set()` granularity:
+    each call has yielded a prefix of, and once finished exactly, the inline sequence. -/
+theorem multi_safe (copy : Bool) (old pre : List Text) (sched : List StepN) (i : Nat) :
+    let st := runN copy (THn.init old pre) sched
+    ((st.cons i).active → (st.cons i).out <+: (old ++ pre).reverse) ∧
+    ((st.cons i).cpc = .done → (st.cons i).out = (old ++ pre).reverse) := by
+  have h := safeN_run copy _ (safeN_init old pre) sched
+  refine ⟨fun ha => ?_, h.done i⟩
+  rw [h.out i ha]; exact List.take_prefix _ _
+
+/-- NO LOST WAKE-UP when the notify loops run over a copy of `_string_load_events` (the proposed
+    fix): as long as any `load()` call is in progress, some loader / consumer step changes the state. -/
+theorem multi_no_lost_wakeup (old pre : List Text) (sched : List StepN) (i : Nat) :
+    let st := runN true (THn.init old pre) sched
+    (st.cons i).active → ∃ a, isLoadStepN a ∧ stepN true st a ≠ st := by
+  intro st ha
+  have hs := safeN_run true _ (safeN_init old pre) sched
+  exact no_deadlockN _ (wakeN_run _ (safeN_init old pre) (wakeN_init old pre) sched) i ha
+
+/-- the schedule of F5d: both calls drained and waiting, `_loaded` set, the final loop sets the
+    first event, that call finishes and unregisters, the loop continues -/
+def f5dSchedule : List StepN :=
+  [.cstart 0, .cstart 1, .lreset, .lsnap, .cwait 0, .cread 0, .cyield 0, .cwait 1, .cread 1, .cyield 1,
+   .ldone, .lfinal, .cwait 0, .cread 0, .cyield 0, .lset]
+
+/-- F5d: LOST WAKE-UP with the live list (the current code): after the schedule the loader thread
+    has ended, the second `load()` call waits on an event nobody will set, and it stays there
+    under EVERY continuation — it never terminates. -/
+theorem f5d_lost_wakeup (more : List StepN) :
+    let st := runN false (THn.init [] []) f5dSchedule
+    st.lpc = .finished ∧ (st.cons 1).cpc = .waiting ∧ (st.cons 1).ev = false ∧
+    ((runN false st more).cons 1).cpc = .waiting := by
+  have h1 : (runN false (THn.init [] []) f5dSchedule).lpc = .finished := by decide
+  have h2 : ((runN false (THn.init [] []) f5dSchedule).cons 1).cpc = .waiting := by decide
+  have h3 : ((runN false (THn.init [] []) f5dSchedule).cons 1).ev = false := by decide
+  exact ⟨h1, h2, h3, stuck_run false _ 1 h1 h2 h3 more⟩
+
+-- with the copy the same schedule leaves the second call's event set, and it completes
+example : ((runN true (THn.init [] []) (f5dSchedule ++ [.lset, .cwait 1, .cread 1, .cyield 1])).cons 1).cpc
+    = .done := by decide
+
+example : ((runN true (THn.init ["a".toList] []) [.cstart 0, .cstart 1, .lreset]).cons 1).active := by
+  unfold Cons.active; decide
 
 end Ptk.C13
